@@ -288,6 +288,10 @@ one (int m, int ci, int fill)
     {
       /* an arbitrary errno on entry (undocumented codes: a refusal must replace it) */
       errno = ((m + ci + fill) & 1) ? EPERM : ((m + ci + fill) & 2) ? ERANGE : 0;
+      /* immediately after a successful request for the same method (whatever that left on the stack or in the library) */
+      static char prevout[CRYPT_GENSALT_OUTPUT_SIZE];
+      (void) crypt_gensalt_rn (prefixes[m], 0, (const char *) rb + 1, 48, prevout, sizeof prevout);
+      errno = ((m + ci + fill) & 1) ? EPERM : ((m + ci + fill) & 2) ? ERANGE : 0;
       r = crypt_gensalt_rn (prefixes[m], count, (const char *) rb, 64, out, sizeof out);
       VH_END ();
     }
